@@ -277,6 +277,38 @@ func objRoundTrip(rep *Report, desc c09Desc, name string, obj interface{}, fresh
 	return out
 }
 
+type manyInputs struct {
+	X []frontend.Variable
+	Y frontend.Variable `gnark:",public"`
+}
+
+func (c *manyInputs) Define(api frontend.API) error {
+	acc := c.X[0]
+	for i := 1; i < len(c.X); i += 2 {
+		if i+1 < len(c.X) {
+			acc = api.Add(acc, c.X[i], c.X[i+1])
+		} else {
+			acc = api.Add(acc, c.X[i])
+		}
+	}
+	api.AssertIsEqual(acc, c.Y)
+	return nil
+}
+
+type bigTable struct {
+	I frontend.Variable
+	V frontend.Variable `gnark:",public"`
+}
+
+func (c *bigTable) Define(api frontend.API) error {
+	t := logderivlookup.New(api)
+	for i := 0; i < 1<<16; i++ {
+		t.Insert(i * 3 % 65521)
+	}
+	api.AssertIsEqual(t.Lookup(c.I)[0], c.V)
+	return nil
+}
+
 type sqCircuit struct {
 	X frontend.Variable
 	Y frontend.Variable `gnark:",public"`
@@ -483,6 +515,32 @@ func runC09(args []string) int {
 			coqCases = append(coqCases, c)
 		}
 	}
+	// size thresholds: more than 2^17 inputs / constraints / calldata words, a lookup table of 2^16 entries (decoder limits)
+	for _, t := range []Target{{"bn254", ecc.BN254.ScalarField(), true}, {"bn254", ecc.BN254.ScalarField(), false}} {
+		nIn := 1<<17 + 5
+		ccs, cerr := compileTarget(t, &manyInputs{X: make([]frontend.Variable, nIn)})
+		if cerr != "" {
+			rep.Fail("harness:large-compile", cerr, t.String())
+			continue
+		}
+		a := &manyInputs{X: make([]frontend.Variable, nIn)}
+		sum := 0
+		for i := range a.X {
+			a.X[i] = i % 7
+			sum += i % 7
+		}
+		a.Y = sum
+		w, _ := frontend.NewWitness(a, t.Field)
+		sysRoundTrip(rep, t, ccs, fmt.Sprintf("large: %d secret inputs summed", nIn), []witness.Witness{w})
+		ccs, cerr = compileTarget(t, &bigTable{})
+		if cerr != "" {
+			rep.Fail("harness:large-compile", cerr, t.String())
+			continue
+		}
+		w, _ = frontend.NewWitness(&bigTable{I: 40000, V: 40000 * 3 % 65521}, t.Field)
+		w2, _ := frontend.NewWitness(&bigTable{I: 40000, V: 1}, t.Field)
+		sysRoundTrip(rep, t, ccs, "large: lookup table with 2^16 entries", []witness.Witness{w, w2})
+	}
 	// keys and proofs
 	curves := []ecc.ID{ecc.BN254, ecc.BLS12_377}
 	if o.Thorough() {
@@ -492,6 +550,7 @@ func runC09(args []string) int {
 		keysRoundTrip(rep, id, false)
 		keysRoundTrip(rep, id, true)
 	}
+	solidityRoundTrip(rep)
 	var sb strings.Builder
 	sb.WriteString("From Coq Require Import ZArith List Bool.\nFrom GnarkV Require Import Codec.Container Codec.ContainerCases.\nImport ListNotations.\n")
 	sb.WriteString(fmt.Sprintf("Definition cases : list kcase := %s.\n", coqlistNL(coqCases)))
